@@ -36,13 +36,15 @@ ASSUMPTIONS = [
     'field splitting (csv_utils.smart_split) is trusted here; it is the subject of C11',
     'the whole-delivery run of the real reader is the reference for schedule independence; the record-assembly model is the reference for the listed line rules',
     'sampling: texts, dialects and (for longer inputs) schedules are sampled from a seeded PRNG, not enumerated',
+    'content that is not valid UTF-8: that it is rejected, and the decode message, must not depend on the schedule; how many records were handed out before the rejection, '
+    'and which defect is reported when the content is also mis-quoted, legitimately may (the byte stream is decoded one raw read at a time)',
 ]
 
 # besides the property's own symbols: characters that other line-splitting conventions (str.splitlines, Unicode) treat as line
 # breaks but RBQL must not (VT, FF, FS, NEL, LS), NUL, and the replacement character
 ALPHABET = ['a', '"', ',', '\n', '\r', '#', ' ', ';', 'b', 'é', '€', '\U0001F600', '﻿', '\t', '\ufffd', '\x0b', '\x0c', '\x1c', '\x85', '\u2028', '\x00']
 WEIGHTS = [10, 9, 8, 9, 9, 4, 3, 2, 3, 2, 2, 1, 1, 1, 1, 1, 1, 1, 1, 1, 1]
-SNIPPETS = ['\r\n', '""', '"\n"', '"\r\n', '\n#', '\r#', 'a,b', '",', ',"', '\n\n', '\r\r', '"a\nb"', '#x\n', '﻿', '\r\n\r\n', '"\r"']
+SNIPPETS = ['\r\n', '""', '"\n"', '"\r\n', '\n#', '\r#', 'a,b', '",', ',"', '\n\n', '\r\r', '"a\nb"', '#x\n', '﻿', '\r\n\r\n', '"\r"', 'e\u0301', 'a\u0308', '\u1100\u1161', '\u0301']      # (the last four: base + combining mark, Hangul jamo L+V, a lone combining mark: text that Unicode normalisation would rewrite)
 ASCII_ALPHABET = ['a', '"', ',', '\n', '\r', '#', ' ']
 
 
@@ -241,6 +243,14 @@ def generate(rng, tier, idx):
         sc['partitions'] = sorted(list(p) for p in parts)
     cs_pool = [1, 2, 3, 4, 5, 8, max(1, n - 1), max(1, n), n + 1, 1024]
     sc['chunk_sizes'] = sorted(set(rng.sample(cs_pool, 3)))
+    if rng.random() < 0.06 and not sc.get('entry'):
+        # another stream read (and possibly failed on) in the same process just before: what this one yields must not depend on it
+        ptext = gen_text(rng, rng.choice([3, 5, 8]), ascii_only=True)
+        pre = {'level': 'utf-8', 'text': ptext, 'chunk_size': rng.choice([1, 2, 3]), 'piece': rng.choice([1, 1, 2])}
+        if rng.random() < 0.7:
+            pre['bad_hex'] = rng.choice(['ff', 'c3', '80'])
+            pre['bad_at'] = rng.randrange(len(ptext) + 1)
+        sc['prelude'] = pre
     return sc
 
 
@@ -504,9 +514,23 @@ def single_case(sc, pieces, cs):
     return out
 
 
+def run_prelude(t, sc):
+    pre = sc.get('prelude')
+    if not pre:
+        return
+    psc = {'kind': 'single', 'level': pre['level'], 'text': pre['text'], 'policy': sc['policy'], 'delim': sc['delim'], 'comment_prefix': None,
+           'has_header': False, 'line_mode': False, 'shape': 'plain', 'bufsize': 1, 'bad_hex': pre.get('bad_hex'), 'bad_at': pre.get('bad_at', 0)}
+    nb = len(scenario_bytes(psc))
+    pieces = [pre['piece']] * (nb // pre['piece']) + ([nb % pre['piece']] if nb % pre['piece'] else [])
+    read_case(t, psc, pieces, pre['chunk_size'])       # whatever it yields (records or a rejection) is not looked at
+
+
 def execute(sc):
     t = core.load_tree()
     counters = {}
+    run_prelude(t, sc)
+    if sc.get('prelude'):
+        bump(counters, 'fault.other_stream_read_just_before' + ('_and_rejected' if sc['prelude'].get('bad_hex') else ''))
     n = len(sc['text']) if sc['level'] == 'text' else len(scenario_bytes(sc))
     ref = read_case(t, sc, [n] if n else [], n + 1)
     model = model_outcome(t, sc) if not (sc.get('entry') or sc.get('bad_hex')) else ref
@@ -628,6 +652,10 @@ def shrinks(sc):
                 new_pieces.append(n - prev)
         c['pieces'] = new_pieces
         return c
+    if sc.get('prelude'):
+        c = dict(sc)
+        c.pop('prelude')
+        yield c
     # drop blocks of characters (halves, quarters, ...) before single characters
     size = len(text) // 2
     while size >= 2:
